@@ -68,6 +68,7 @@ type State struct {
 	Mutex    map[string]MutexSt
 	Clock    string
 	ClockMax string
+	EqLits   map[string]string // terms an Assume fixed to a literal string
 	Now0     string
 	Occ      map[string]int
 	Nondet   []NondetRec
@@ -116,6 +117,12 @@ func (s *State) Fork() *State {
 		n.FreshBranch = make(map[string]bool, len(s.FreshBranch))
 		for k, v := range s.FreshBranch {
 			n.FreshBranch[k] = v
+		}
+	}
+	if s.EqLits != nil {
+		n.EqLits = make(map[string]string, len(s.EqLits))
+		for k, v := range s.EqLits {
+			n.EqLits[k] = v
 		}
 	}
 	if s.Sched != nil {
